@@ -150,14 +150,17 @@ func (r *ConsecutiveBlankLinesRule) Check(ctx *linter.Context) ([]linter.Violati
 func (r *ConsecutiveBlankLinesRule) Fix(content string, violations []linter.Violation) (string, error) {
 	lines := strings.Split(content, "\n")
 	result := make([]string, 0, len(lines))
+	inside := make([]bool, 0, len(lines)) // per kept line: a blank line that lies inside a literal or comment
 
 	classes := tokenizer.ClassifyBytes(content)
 	offset := 0
 	consecutiveCount := 0
 	for _, line := range lines {
 		trimmed := strings.TrimSpace(line)
+		kept := false
 		if trimmed == "" && (startsInside(classes, offset) || endsInsideLiteral(classes, offset, len(line))) {
 			trimmed = "x" // blank line inside a literal or comment: keep
+			kept = true
 		}
 		offset += len(line) + 1
 
@@ -165,28 +168,28 @@ func (r *ConsecutiveBlankLinesRule) Fix(content string, violations []linter.Viol
 			consecutiveCount++
 			if consecutiveCount <= r.maxConsecutive {
 				result = append(result, line)
+				inside = append(inside, false)
 			}
 		} else {
 			consecutiveCount = 0
 			result = append(result, line)
+			inside = append(inside, kept)
 		}
 	}
 
 	// Trim trailing blank lines at end of file to at most maxConsecutive
-	for len(result) > 0 && strings.TrimSpace(result[len(result)-1]) == "" {
-		blankCount := 0
-		for i := len(result) - 1; i >= 0 && strings.TrimSpace(result[i]) == ""; i-- {
-			blankCount++
-		}
-		limit := r.maxConsecutive
-		if strings.HasSuffix(content, "\n") {
-			limit++ // the piece after the final newline is not a blank line
-		}
-		if blankCount > limit {
-			result = result[:len(result)-1]
-		} else {
-			break
-		}
+	// (counted once; blank lines inside an unterminated literal or comment are
+	// content and stay)
+	blankCount := 0
+	for i := len(result) - 1; i >= 0 && !inside[i] && strings.TrimSpace(result[i]) == ""; i-- {
+		blankCount++
+	}
+	limit := r.maxConsecutive
+	if strings.HasSuffix(content, "\n") {
+		limit++ // the piece after the final newline is not a blank line
+	}
+	if blankCount > limit {
+		result = result[:len(result)-(blankCount-limit)]
 	}
 
 	return strings.Join(result, "\n"), nil
